@@ -15,8 +15,17 @@ Record case_t := Case {
   k_bounds : tr;
   k_chunk : Z;
   k_cmds : list cmd;
-  k_obs : list obs                   (* implementation: observation after every command *)
+  k_obs : list obs;                  (* implementation: observation after every command *)
+  k_late : list (list series)        (* implementation: the frame of every command, held by the
+                                        caller and looked at again after the last command *)
 }.
+
+(* error class of a scripted one-shot read fault (harness: cesh.EInjected): the step after which
+   it is reported may fail; until the next seek the model is not compared with the
+   implementation (errors are sticky and the model does not know which read failed) *)
+Definition INJECTED : Z := 99.
+Definition is_seek (c : cmd) : bool :=
+  match c with SeekFirst | SeekLast | SeekLE _ | SeekGE _ => true | _ => false end.
 
 (* ---- model side ---- *)
 Definition model_state (c : case_t) : state * list (Z * Z) :=
@@ -36,9 +45,26 @@ Definition obs_eqb (a b : obs) : bool :=
   (o_err a =? o_err b) && list_eqb series_eqb (o_frame a) (o_frame b).
 Definition zz_eqb (a b : Z * Z) : bool := (fst a =? fst b) && (snd a =? snd b).
 
+Fixpoint obs_match (desync : bool) (cs : list cmd) (ms os : list obs) : bool :=
+  match cs, ms, os with
+  | [], [], [] => true
+  | c :: cs', m :: ms', o :: os' =>
+      (* a seek that finds a domain reloads the domain iterator; one that does not leaves the
+         pointer of the interrupted step behind, on which the view of the failed seek depends *)
+      let desync := desync && negb (is_seek c && o_ok o) in
+      if desync || (o_err o =? INJECTED) then obs_match true cs' ms' os'
+      else obs_eqb m o && obs_match false cs' ms' os'
+  | _, _, _ => false
+  end.
+
+(* a frame never changes once it has been returned *)
+Definition late_same (c : case_t) : bool :=
+  list_eqb (list_eqb series_eqb) (map o_frame (k_obs c)) (k_late c).
+
 Definition mismatch (c : case_t) : bool :=
   negb (list_eqb zz_eqb (snd (model_state c)) (k_sres c)) ||
-  negb (list_eqb obs_eqb (model_obs c) (k_obs c)).
+  negb (obs_match false (k_cmds c) (model_obs c) (k_obs c)) ||
+  negb (late_same c).
 
 (* ---- the property on observations ---- *)
 Definition truth (c : case_t) : assoc :=
@@ -91,7 +117,7 @@ Fixpoint trav_fwd (tru : assoc) (b : tr) (l : list (cmd * obs)) (acc : list Z) (
       if is_fwd c then
         let pure := pure && is_auto c in
         if negb (o_err o =? 0) then
-          if pure then no_data (read_spec tru (TR (t_s (o_view o)) (t_e b))) else true
+          if pure && negb (o_err o =? INJECTED) then no_data (read_spec tru (TR (t_s (o_view o)) (t_e b))) else true
         else
         let acc := acc ++ frame_data (o_frame o) in
         if t_e (o_view o) =? t_e b then list_eqb Z.eqb acc (read_spec tru b)
@@ -105,7 +131,7 @@ Fixpoint trav_bwd (tru : assoc) (b : tr) (l : list (cmd * obs)) (acc : list Z) (
       if is_bwd c then
         let pure := pure && is_auto c in
         if negb (o_err o =? 0) then
-          if pure then no_data (read_spec tru (TR (t_s b) (t_e (o_view o)))) else true
+          if pure && negb (o_err o =? INJECTED) then no_data (read_spec tru (TR (t_s b) (t_e (o_view o)))) else true
         else
         let acc := frame_data (o_frame o) ++ acc in
         if t_s (o_view o) =? t_s b then list_eqb Z.eqb acc (read_spec tru b)
@@ -150,8 +176,16 @@ Definition script_clean (c : case_t) : bool :=
                      | WWrite _ | WCommit => (fst (snd oc) =? 0) || (fst (snd oc) =? 6)
                      | _ => true end) (combine (k_script c) (k_sres c)).
 
+(* the frame the caller holds keeps carrying exactly the samples of the view it was returned
+   for: clause (1) again, on the frames looked at after the last command *)
+Definition with_frame (o : obs) (f : list series) : obs := Obs (o_ok o) (o_valid o) (o_view o) (o_err o) f.
+Definition late_ok (tru : assoc) (os : list obs) (late : list (list series)) : bool :=
+  forallb (fun ol => exact_ok tru (with_frame (fst ol) (snd ol))) (combine os late).
+
 Definition violates (c : case_t) : bool :=
-  script_clean c && negb (ok_C10 (truth c) (k_bounds c) (k_cmds c) (k_obs c)).
+  script_clean c &&
+  (negb (ok_C10 (truth c) (k_bounds c) (k_cmds c) (k_obs c)) ||
+   negb (late_ok (truth c) (k_obs c) (k_late c))).
 
 Definition mismatches (cs : list case_t) : list nat := find_idx mismatch cs.
 Definition violations (cs : list case_t) : list nat := find_idx violates cs.
@@ -189,8 +223,15 @@ Fixpoint diag_trace (tru : assoc) (b : tr) (prev : option (cmd * obs)) (l : list
          | _ => [] end) in
       (match codes with [] => [] | _ => [(n, codes)] end) ++ diag_trace tru b' (Some (c, o)) r (n + 1)
   end.
+(* code 8: the frame held by the caller no longer carries the samples of its view *)
+Fixpoint diag_late (tru : assoc) (l : list (obs * list series)) (n : Z) : list (Z * list Z) :=
+  match l with
+  | [] => []
+  | (o, f) :: r => (if exact_ok tru (with_frame o f) then [] else [(n, [8])]) ++ diag_late tru r (n + 1)
+  end.
 Definition diagnose (c : case_t) : list (Z * list Z) :=
-  diag_trace (truth c) (k_bounds c) None (combine (k_cmds c) (k_obs c)) 0.
+  diag_trace (truth c) (k_bounds c) None (combine (k_cmds c) (k_obs c)) 0 ++
+  diag_late (truth c) (combine (k_obs c) (k_late c)) 0.
 
 (* does the layout the model computes for the case satisfy the decidable hypothesis of the
    exactness theorems (C10_step_exact_partial)? — reported as coverage of the guard *)
